@@ -12,6 +12,7 @@ import (
 	"go/parser"
 	"go/printer"
 	"go/token"
+	"math/bits"
 	"os"
 	"path/filepath"
 	"sort"
@@ -1141,4 +1142,82 @@ func (s *Schema) Text() string {
 		b.WriteString("\n")
 	}
 	return b.String()
+}
+
+const digestMod = 2305843009213693951 // 2^61 - 1
+
+func mix(h, x uint64) uint64 {
+	hi, lo := bits.Mul64(h, 1000003)
+	var c uint64
+	lo, c = bits.Add64(lo, x+1, 0)
+	hi += c
+	_, r := bits.Div64(hi, lo, digestMod)
+	return r
+}
+
+func (t *Ty) digest() uint64 {
+	switch t.K {
+	case "int":
+		return 1
+	case "long":
+		return 2
+	case "double":
+		return 3
+	case "i128":
+		return 4
+	case "i256":
+		return 5
+	case "str", "bytes":
+		return 6
+	case "bool":
+		return 7
+	case "true":
+		return 8
+	case "flags":
+		return 9
+	case "generic":
+		return 10
+	case "iface":
+		return mix(11, uint64(t.Ref))
+	case "ctor":
+		return mix(12, uint64(t.Ref))
+	case "bare":
+		return mix(13, uint64(t.Ref))
+	case "vec":
+		if t.BareHdr {
+			return mix(15, t.Elem.digest())
+		}
+		return mix(14, t.Elem.digest())
+	}
+	return 0
+}
+
+// Digest mirrors TdModel.C21.Schema.digest.
+func (s *Schema) Digest() uint64 {
+	var h uint64
+	for _, c := range s.Ctors {
+		var id, bad uint64
+		if c.HasID {
+			id = uint64(c.ID) + 1
+		}
+		if c.Bad != "" {
+			bad = 1
+		}
+		ch := mix(id, bad)
+		for _, f := range c.Fields {
+			var cond uint64
+			if f.Cond {
+				cond = 1 + uint64(f.FlagIdx)*64 + uint64(f.Bit)
+			}
+			ch = mix(ch, mix(f.Ty.digest(), cond))
+		}
+		h = mix(h, ch)
+	}
+	for _, i := range s.Ifaces {
+		h = mix(h, 77)
+		for _, r := range i.Refs {
+			h = mix(h, uint64(r))
+		}
+	}
+	return h
 }
